@@ -27,18 +27,13 @@ example : bytes (renderOpen (applyInline [("ka", [("color", "red"), ("font-weigh
                               ⟨"div", [("class", "kb zz ka")], [], [("padding", "1px")]⟩ ["kb", "zz", "ka"]))
     = "<div class=\"kb zz ka\" style=\"padding:1px;margin:0;color:red;font-weight:bold;\">" := by decide
 
-/-- **completeness over all code sites, partial**: every function of package `components` that puts a css-class on an
-    element also applies the inline rules — except the recorded ones (finding C19-F1…: accordion, carousel image, navbar,
-    navbar link, social, social element, full-width wrapper), regenerated table -/
-def knownNonInlining : List String :=
-  ["mjml/components.(*MJAccordionComponent).Render", "mjml/components.(*MJAccordionElementComponent).Render",
-   "mjml/components.(*MJAccordionElementComponent).renderContent", "mjml/components.(*MJAccordionElementComponent).renderTitle",
-   "mjml/components.(*MJCarouselComponent).renderCarouselImageContent", "mjml/components.(*MJCarouselComponent).renderThumbnails",
-   "mjml/components.(*MJNavbarComponent).renderCellOpen", "mjml/components.(*MJNavbarComponent).renderMSOTableCellOpen",
-   "mjml/components.(*MJNavbarLinkComponent).RenderWithBaseURL", "mjml/components.(*MJSocialComponent).Render",
-   "mjml/components.(*MJSocialElementComponent).Render", "mjml/components.(*MJWrapperComponent).renderFullWidthToWriter"]
+/-- **completeness over all code sites**: every function of package `components` that puts a css-class on an element also
+    applies the inline rules (regenerated table).  The two remaining rows put a *derived* class on an element — `<class>-outlook`
+    on the Outlook cell of a navbar link, `<class>-thumbnail` on a carousel thumbnail — which no author rule targets. -/
+def derivedClassOnly : List String :=
+  ["mjml/components.(*MJCarouselComponent).renderThumbnails", "mjml/components.(*MJNavbarComponent).renderMSOTableCellOpen"]
 
-theorem C19_class_sites_partial :
-    ∀ r ∈ Gomjml.Gen.ClassSites.classSites, r.2 = "yes" ∨ r.1 ∈ knownNonInlining := by decide
+theorem C19_class_sites :
+    ∀ r ∈ Gomjml.Gen.ClassSites.classSites, r.2 = "yes" ∨ r.1 ∈ derivedClassOnly := by decide
 
 end Gomjml.Props.C19
